@@ -265,12 +265,10 @@ func runC16(tier string) int {
 	if tier == "thorough" {
 		base = nil
 		for _, c := range allCfgs() {
-			if c.Fmt == 0 && c.Stub == c.Resets {
+			if c.Fmt == 0 && c.Stub == c.Resets && (c.Skip || !c.Custom) {
 				base = append(base, c)
 			}
 		}
-		v := scopeType(1, "V")
-		pkgs = append(pkgs, v...)
 		pkgs = append(pkgs, scopeImp(2, false)...)
 	}
 	var cfgs []Cfg
@@ -620,7 +618,11 @@ func runC14E1(rep *Report, tier string) {
 		k = 3
 		pkgs = append(pkgs, scopeName2("pairs")...)
 	}
-	for _, p := range scopeImp(k, true) {
+	impPkgs := scopeImp(2, true)
+	if k == 3 {
+		impPkgs = append(impPkgs, scopeImp(3, false)...)
+	}
+	for _, p := range impPkgs {
 		// the alias modes that influence conflict resolution (the others only change spelling)
 		mode := ""
 		for _, t := range p.Ifaces[0].Tags {
